@@ -112,3 +112,22 @@ Example C06_job_example :
   j_stdout r3 = (list_ascii_of_string "{""c"":""COMMAND"",""attr"":{""command"":{""find"":""c"",""filter"":{""a"":""REDACTED""}}}}" ++ [nl])%list /\
   j_fs r1 "in.log"%string = FFile line 420.
 Proof. vm_compute. repeat split; reflexivity. Qed.
+
+(* ---------- the output as a list of lines ---------- *)
+From Proofs Require Import StreamIdem.
+
+(* "exactly one newline-terminated line for each input line that is a JSON object, in input order": the output of a fault-free pass over ANY input text
+   is the newline-terminated concatenation of [outs tokens] - for each token the scanner delivers, in order, the line it yields on its own when it
+   yields one, nothing when it does not; no emitted line holds a line feed (so the lines of the output ARE these lines), every emitted line is the
+   result of one of the tokens, and there are never more output lines than input lines. *)
+Theorem C06_one_line_per_object : forall tb cs c enc data,
+  let toks := fst (scan data REof) in
+  stream tb cs c enc data = lf_text (outs tb cs c enc toks) /\
+  Forall (fun o => ~ In nl o) (outs tb cs c enc toks) /\
+  (forall o, In o (outs tb cs c enc toks) <-> exists t, In t toks /\ redact_line tb cs c enc t = Out o) /\
+  List.length (outs tb cs c enc toks) <= List.length toks.
+Proof.
+  intros tb cs c enc data toks. split; [apply stream_outs|]. split; [|split; [intros o; apply outs_in | apply outs_length]].
+  pose proof (outs_clean tb cs c enc toks) as H. rewrite Forall_forall in *. intros o Ho. exact (proj1 (H o Ho)).
+Qed.
+Print Assumptions C06_one_line_per_object.
